@@ -1218,8 +1218,16 @@ pub fn scen_sizes(ctx: &Ctx) -> i32 {
     let kmax = if thorough { 1u64 << 16 } else { 3000 };
     for (i, vo) in offs.iter().enumerate() {
         for (j, nx) in offs.iter().enumerate() {
-            if thorough || (i + j) % 3 == 0 || i == j {
+            // thorough: all key lengths 0..2^16 for every offset-width class on the diagonal and one
+            // off-diagonal neighbour, 0..3040 + the window around 65536 for all 18x18 pairs
+            let full = thorough && (i == j || i + 1 == j || j + 1 == i);
+            if full {
                 jobs.push(("k".into(), 0, kmax + 40, *vo, *nx));
+            } else if thorough || (i + j) % 3 == 0 || i == j {
+                jobs.push(("k".into(), 0, 3040, *vo, *nx));
+                if thorough {
+                    jobs.push(("k".into(), 65_400, 65_700, *vo, *nx));
+                }
                 if !thorough {
                     jobs.push(("k".into(), 65_500, 65_600, *vo, *nx));
                 }
